@@ -537,6 +537,10 @@ class EvalMixin(object):
                 e = z3.And(PyVal.is_pbool(a.e), PyVal.pb(a.e) == b.e)
             elif isinstance(a, VRef) and isinstance(b, VRef):
                 e = z3.BoolVal(a.oid == b.oid)
+            elif isinstance(b, VBool) and isinstance(a, (VStr, VInt, VRef, VTuple)):
+                e = z3.BoolVal(False)      # `x is True/False` for a value of another type
+            elif isinstance(a, VBool) and isinstance(b, (VStr, VInt, VRef, VTuple)):
+                e = z3.BoolVal(False)
             else:
                 raise OutOfSubset("`is` on %r, %r" % (a, b), node)
             return e if isinstance(op, ast.Is) else z3.Not(e)
@@ -671,6 +675,8 @@ class EvalMixin(object):
                 return self.dict_get(cell, idx, st, node, strict=True)
             if isinstance(cell, HObj) and cell.cls == "Scope":
                 return self.scope_getattr(base, cell, idx, st, node)
+            if isinstance(cell, HObj) and cell.cls == "Tree":
+                return st.alloc(HObj("Tree", {}))
             if isinstance(cell, HObj) and cell.cls == "ObjDict":
                 return st.alloc(HObj("Scope1", {}))     # a member object; the contract observes its stores by anchors
             if isinstance(cell, HRecList) and isinstance(idx, VInt):
